@@ -7,7 +7,7 @@ verus! {
 
 global size_of usize == 8;
 
-//@include inc/pad_spec.rs
+//@include inc/pad_defs.rs
 
 // the padding function under its V-PAD contract (proved there, assumed here)
 #[verifier::external_body]
@@ -185,6 +185,232 @@ pub open spec fn slice_wf(s: &SliceWithPos) -> bool {
 //@  sub <<fn pos(&self) -> usize {>>
 //@  ret r
 //@  sub <<fn align<T: MaxSizeOf>(&mut self) -> deser::Result<()> {>>
+//@  ret r
+//@end
+
+
+// =========================================================================
+// DeserializeInner: the trait-level contract every implementation is checked
+// against (and every caller relies on): the result is the grammar's parse.
+// =========================================================================
+
+//@item epserde/src/deser/mod.rs props=C01,C02,C07,C11,C15 name=DeserializeInner <<pub trait DeserializeInner: Sized {>>
+//@  body_prefix
+//@|    /// the published encoding of Self, as a parser (ghost)
+//@|    spec fn parse(s: Seq<u8>, pos: nat) -> PR<Self>;
+//@|    /// an eps-copy result `d` describes the value `v` (ghost)
+//@|    spec fn eps_rel<'a>(d: Self::DeserType<'a>, v: Self) -> bool;
+//@  sub <<fn _deserialize_full_inner(backend: &mut impl ReadWithPos) -> Result<Self>;>>
+//@  impl_arg
+//@  ret r
+//@  spec
+//@|        requires old(backend).wf(),
+//@|            // slice cursors may panic on truncated input (documented, C11)
+//@|            old(backend).is_slice() ==> !(Self::parse(old(backend).rem(), old(backend).rpos()) is Short),
+//@|        ensures final(backend).wf(),
+//@|            final(backend).reliable() == old(backend).reliable(),
+//@|            final(backend).is_slice() == old(backend).is_slice(),
+//@|            final(backend).rem().len() <= old(backend).rem().len(),
+//@|            full_post::<Self, ImplArg0>(Self::parse(old(backend).rem(), old(backend).rpos()), old(backend), final(backend), r),
+//@  sub <<fn _deserialize_eps_inner<'a>(backend: &mut SliceWithPos<'a>) -> Result<Self::DeserType<'a>>;>>
+//@  ret r
+//@  spec
+//@|        requires slice_wf(old(backend)),
+//@|            !(Self::parse(old(backend).data@, old(backend).pos as nat) is Short),
+//@|        ensures slice_wf(final(backend)),
+//@|            final(backend).data@.len() <= old(backend).data@.len(),
+//@|            match Self::parse(old(backend).data@, old(backend).pos as nat) {
+//@|                PR::Val(v, n) => match r {
+//@|                    Ok(d) => Self::eps_rel(d, v)
+//@|                        && n <= old(backend).data@.len()
+//@|                        && final(backend).data@ =~= old(backend).data@.skip(n as int)
+//@|                        && final(backend).pos == old(backend).pos + n,
+//@|                    Err(e) => e is AlignmentError,
+//@|                },
+//@|                PR::BadTag(t) => match r {
+//@|                    Ok(_) => false,
+//@|                    Err(e) => e is AlignmentError || e == Error::InvalidTag(t),
+//@|                },
+//@|                PR::Short => true,
+//@|            },
+//@end
+
+/// full-copy postcondition, shared by the trait and the helper functions
+pub open spec fn full_post<T, R: ReadWithPos>(p: PR<T>, pre: &R, post: &R, r: Result<T>) -> bool {
+    match p {
+        PR::Val(v, n) => match r {
+            Ok(x) => x == v
+                && n <= pre.rem().len()
+                && post.rem() =~= pre.rem().skip(n as int)
+                && post.rpos() == pre.rpos() + n,
+            Err(e) => (e is ReadError && !pre.reliable()) || (e is AlignmentError && pre.is_slice()),
+        },
+        PR::BadTag(t) => match r {
+            Ok(_) => false,
+            Err(e) => e == Error::InvalidTag(t) || (e is ReadError && !pre.reliable())
+                || (e is AlignmentError && pre.is_slice()),
+        },
+        PR::Short => match r {
+            Ok(_) => false,
+            Err(e) => e is ReadError || (e is AlignmentError && pre.is_slice()),
+        },
+    }
+}
+
+// ---- primitives: assumed contracts (bodies use from_ne_bytes / try_into, which
+// Verus cannot specify); checked on the real code by Kani lemmas rt_full_uints,
+// rt_eps_uints_1, cut_* ----
+
+macro_rules! assumed_prim {
+    ($t:ty, $of:ident, $n:expr) => {
+        verus! {
+        impl DeserializeInner for $t {
+            type DeserType<'a> = Self;
+            open spec fn parse(s: Seq<u8>, pos: nat) -> PR<Self> { parse_fixed(s, $n, |b: Seq<u8>| $of(b)) }
+            open spec fn eps_rel<'a>(d: Self, v: Self) -> bool { d == v }
+            #[verifier::external_body]
+            fn _deserialize_full_inner<R: ReadWithPos>(backend: &mut R) -> (r: Result<Self>) { unimplemented!() }
+            #[verifier::external_body]
+            fn _deserialize_eps_inner<'a>(backend: &mut SliceWithPos<'a>) -> (r: Result<Self>) { unimplemented!() }
+        }
+        }
+    };
+}
+assumed_prim!(u8, u8_of, 1);
+assumed_prim!(u32, u32_of, 4);
+assumed_prim!(usize, usize_of, 8);
+
+// =========================================================================
+// implementations from impls/prim.rs
+// =========================================================================
+
+//@item epserde/src/impls/prim.rs props=C01,C02 name=bool::DeserializeInner <<impl DeserializeInner for bool {>>
+//@  replace <<deser::Result>> <<Result>>
+//@  body_prefix
+//@|    open spec fn parse(s: Seq<u8>, pos: nat) -> PR<Self> {
+//@|        if s.len() < 1 { PR::Short } else { PR::Val(u8_of(s.take(1)) != 0, 1) }
+//@|    }
+//@|    open spec fn eps_rel<'a>(d: Self, v: Self) -> bool { d == v }
+//@  sub <<fn _deserialize_full_inner(backend: &mut impl ReadWithPos) -> deser::Result<bool> {>>
+//@  impl_arg
+//@  ret r
+//@  sub <<fn _deserialize_eps_inner<'a>(>>
+//@  ret r
+//@end
+
+
+//@item epserde/src/impls/prim.rs props=C01,C02 name=unit::DeserializeInner <<impl DeserializeInner for () {>>
+//@  replace <<deser::Result>> <<Result>>
+//@  body_prefix
+//@|    open spec fn parse(s: Seq<u8>, pos: nat) -> PR<Self> { PR::Val((), 0) }
+//@|    open spec fn eps_rel<'a>(d: Self, v: Self) -> bool { true }
+//@  sub <<fn _deserialize_full_inner(_backend: &mut impl ReadWithPos) -> deser::Result<Self> {>>
+//@  impl_arg
+//@  ret r
+//@  sub <<fn _deserialize_eps_inner<'a>(>>
+//@  ret r
+//@end
+
+//@item epserde/src/impls/prim.rs props=C01,C02 name=PhantomData::DeserializeInner <<impl<T: ?Sized> DeserializeInner for PhantomData<T> {>>
+//@  replace <<deser::Result>> <<Result>>
+//@  replace <<PhantomData>> <<core::marker::PhantomData>>
+//@  body_prefix
+//@|    open spec fn parse(s: Seq<u8>, pos: nat) -> PR<Self> { PR::Val(core::marker::PhantomData, 0) }
+//@|    open spec fn eps_rel<'a>(d: Self, v: Self) -> bool { true }
+//@  sub <<fn _deserialize_full_inner(_backend: &mut impl ReadWithPos) -> deser::Result<Self> {>>
+//@  impl_arg
+//@  ret r
+//@  sub <<fn _deserialize_eps_inner<'a>(>>
+//@  ret r
+//@end
+
+/// one-byte tag, then the payload of the selected variant
+pub open spec fn parse_payload<T: DeserializeInner, S>(s: Seq<u8>, pos: nat, wrap: spec_fn(T) -> S) -> PR<S> {
+    match T::parse(s.skip(1), pos + 1) {
+        PR::Val(v, n) => PR::Val(wrap(v), n + 1),
+        PR::BadTag(t) => PR::BadTag(t),
+        PR::Short => PR::Short,
+    }
+}
+
+//@item epserde/src/impls/prim.rs props=C01,C02,C11,C15 name=Option::DeserializeInner <<impl<T: DeserializeInner> DeserializeInner for Option<T> {>>
+//@  replace <<deser::Result>> <<Result>>
+//@  replace <<deser::Error>> <<Error>>
+//@  body_prefix
+//@|    /// tag 0 = None, tag 1 = Some(payload); every other tag is foreign
+//@|    open spec fn parse(s: Seq<u8>, pos: nat) -> PR<Self> {
+//@|        if s.len() < 1 { PR::Short }
+//@|        else if s[0] == 0 { PR::Val(None, 1) }
+//@|        else if s[0] == 1 { parse_payload::<T, Self>(s, pos, |v: T| Some(v)) }
+//@|        else { PR::BadTag(s[0] as usize) }
+//@|    }
+//@|    open spec fn eps_rel<'a>(d: Option<<T as DeserializeInner>::DeserType<'a>>, v: Self) -> bool {
+//@|        match (d, v) {
+//@|            (None, None) => true,
+//@|            (Some(a), Some(b)) => T::eps_rel(a, b),
+//@|            _ => false,
+//@|        }
+//@|    }
+//@  sub <<fn _deserialize_full_inner(backend: &mut impl ReadWithPos) -> deser::Result<Self> {>>
+//@  impl_arg
+//@  ret r
+//@  sub <<fn _deserialize_eps_inner<'a>(>>
+//@  ret r
+//@end
+
+// =========================================================================
+// implementations from impls/stdlib.rs
+// =========================================================================
+
+//@item epserde/src/impls/stdlib.rs props=C01,C02,C11,C15 name=Bound::DeserializeInner <<impl<T: DeserializeInner> DeserializeInner for core::ops::Bound<T> {>>
+//@  replace <<deser::Result>> <<Result>>
+//@  replace <<deser::Error>> <<Error>>
+//@  body_prefix
+//@|    /// tag 0 = Unbounded, 1 = Included(payload), 2 = Excluded(payload)
+//@|    open spec fn parse(s: Seq<u8>, pos: nat) -> PR<Self> {
+//@|        if s.len() < 1 { PR::Short }
+//@|        else if s[0] == 0 { PR::Val(core::ops::Bound::Unbounded, 1) }
+//@|        else if s[0] == 1 { parse_payload::<T, Self>(s, pos, |v: T| core::ops::Bound::Included(v)) }
+//@|        else if s[0] == 2 { parse_payload::<T, Self>(s, pos, |v: T| core::ops::Bound::Excluded(v)) }
+//@|        else { PR::BadTag(s[0] as usize) }
+//@|    }
+//@|    open spec fn eps_rel<'a>(d: core::ops::Bound<<T as DeserializeInner>::DeserType<'a>>, v: Self) -> bool {
+//@|        match (d, v) {
+//@|            (core::ops::Bound::Unbounded, core::ops::Bound::Unbounded) => true,
+//@|            (core::ops::Bound::Included(a), core::ops::Bound::Included(b)) => T::eps_rel(a, b),
+//@|            (core::ops::Bound::Excluded(a), core::ops::Bound::Excluded(b)) => T::eps_rel(a, b),
+//@|            _ => false,
+//@|        }
+//@|    }
+//@  sub <<fn _deserialize_full_inner(backend: &mut impl ReadWithPos) -> deser::Result<Self> {>>
+//@  impl_arg
+//@  ret r
+//@  sub <<fn _deserialize_eps_inner<'a>(>>
+//@  ret r
+//@end
+
+//@item epserde/src/impls/stdlib.rs props=C01,C02,C11,C15 name=ControlFlow::DeserializeInner <<impl<B: DeserializeInner, C: DeserializeInner> DeserializeInner for core::ops::ControlFlow<B, C> {>>
+//@  replace <<deser::Result>> <<Result>>
+//@  replace <<deser::Error>> <<Error>>
+//@  body_prefix
+//@|    /// tag 0 = Break(payload), tag 1 = Continue(payload)
+//@|    open spec fn parse(s: Seq<u8>, pos: nat) -> PR<Self> {
+//@|        if s.len() < 1 { PR::Short }
+//@|        else if s[0] == 0 { parse_payload::<B, Self>(s, pos, |v: B| core::ops::ControlFlow::Break(v)) }
+//@|        else if s[0] == 1 { parse_payload::<C, Self>(s, pos, |v: C| core::ops::ControlFlow::Continue(v)) }
+//@|        else { PR::BadTag(s[0] as usize) }
+//@|    }
+//@|    open spec fn eps_rel<'a>(d: core::ops::ControlFlow<<B as DeserializeInner>::DeserType<'a>, <C as DeserializeInner>::DeserType<'a>>, v: Self) -> bool {
+//@|        match (d, v) {
+//@|            (core::ops::ControlFlow::Break(a), core::ops::ControlFlow::Break(b)) => B::eps_rel(a, b),
+//@|            (core::ops::ControlFlow::Continue(a), core::ops::ControlFlow::Continue(b)) => C::eps_rel(a, b),
+//@|            _ => false,
+//@|        }
+//@|    }
+//@  sub <<fn _deserialize_full_inner(backend: &mut impl ReadWithPos) -> deser::Result<Self> {>>
+//@  impl_arg
+//@  ret r
+//@  sub <<fn _deserialize_eps_inner<'a>(>>
 //@  ret r
 //@end
 
